@@ -73,6 +73,12 @@ impl HeaderMap {
         Self { inner }
     }
 
+    /// Run the (normally timer-driven) memory-limit spill synchronously.
+    #[cfg(ckb_verif)]
+    pub fn verif_limit_memory(&self) {
+        self.inner.limit_memory()
+    }
+
     pub fn contains_key(&self, hash: &Byte32) -> bool {
         let _trace_timer: Option<HistogramTimer> = ckb_metrics::handle().map(|metric| {
             metric
